@@ -3,7 +3,7 @@
    repeated in coq/pins/C10.v and re-checked on every run. *)
 From Coq Require Import List Bool Arith.
 From GV Require Import Base.Outcome Base.AMap Model.GState Model.Creation Model.Query
-     Model.Components Model.Scc Spec.ReachDef Spec.CompSpec Proofs.ReachOk Proofs.ComponentsOk Proofs.PartitionsOk Proofs.SccOk Proofs.SccFullOk.
+     Model.Components Model.Scc Spec.ReachDef Spec.CompSpec Proofs.ReachOk Proofs.ComponentsOk Proofs.PartitionsOk Proofs.PartitionsTotalOk Proofs.SccOk Proofs.SccFullOk.
 Import ListNotations.
 
 Section C10.
@@ -154,4 +154,11 @@ Section C10.
     Forall (fun p => length p <= number_of_nodes g / k + 1) ps /\
     length (concat ps) = number_of_nodes g.
   Proof. exact (equal_size_shape (T:=T) (A:=A)). Qed.
+  (* ... and it RETURNS for every k >= 1 on every graph state whose index adjacency is well
+     formed (executable test vec_ok_b, evaluated on every case): both loops finish within the
+     model's explicit fuel, `partitions[partition]` is never indexed at k, no other index or
+     unwrap fails *)
+  Theorem C10_equal_size_total : forall (g : gstate) k,
+    vec_ok_b g = true -> 1 <= k -> exists ps, bfs_equal_size_partitions g k = Ok ps.
+  Proof. exact (equal_size_total (T:=T) (A:=A)). Qed.
 End C10.
